@@ -148,15 +148,17 @@ func init() {
 	reg("(cosmossdk.io/collections.Sequence).Peek", "Sequence.Peek returns the stored value, or DefaultSequenceStart (0) if unset", func(c *CallCtx) []Outcome {
 		d, _ := c.x.coll(c.args[0])
 		v := c.x.ghostGet(c.st, handleOf(c.args[1]), d.name, d.sort, d.gi)
-		c.st.Assume(and(app(">=", v, "0"), app("<", v, two64)))
+		c.st.Assume(and(app(">=", v, "0"), app("<", v, two63))) // A-CTR: counters stay far below 2^64
+		c.x.enc.usedAssum["A-CTR: sequence counters stay below 2^63"] = true
 		return c.ret(TV{T: v, Ty: tUint64}, nilErr())
 	})
 	reg("(cosmossdk.io/collections.Sequence).Next", "Sequence.Next returns the stored value (0 if unset) and stores value+1 (machine wrap-around at 2^64)", func(c *CallCtx) []Outcome {
 		d, _ := c.x.coll(c.args[0])
 		h := handleOf(c.args[1])
 		v := c.x.ghostGet(c.st, h, d.name, d.sort, d.gi)
-		c.st.Assume(and(app(">=", v, "0"), app("<", v, two64)))
-		c.x.ghostSet(c.st, h, d.name, c.x.wrapAdd(app("+", v, "1"), tUint64))
+		c.st.Assume(and(app(">=", v, "0"), app("<", v, two63))) // A-CTR
+		c.x.enc.usedAssum["A-CTR: sequence counters stay below 2^63"] = true
+		c.x.ghostSet(c.st, h, d.name, app("+", v, "1"))
 		return c.ret(TV{T: v, Ty: tUint64}, nilErr())
 	})
 	reg("(cosmossdk.io/collections.Sequence).Set", "Sequence.Set stores the value", func(c *CallCtx) []Outcome {
@@ -527,7 +529,7 @@ func init() {
 		sender := c.t(3)
 		return c.forkFail(func(st *State) []Value {
 			bal := c.x.bankBal(st, h)
-			nb := c.x.enc.FreshConst("bank.bal@fund", bankBalSort)
+			nb := c.x.freshGhost("bank.bal", "@fund", bankBalSort)
 			dm := c.x.moduleAddr(c.x.enc.Lit("distribution"))
 			st.Assume(fmt.Sprintf("(forall ((k (Pair Bytes Bytes))) (! (=> (and (not (= (fst k) %s)) (not (= (fst k) %s))) (= (select %s k) (select %s k))) :pattern ((select %s k))))", sender, dm, nb, bal, nb))
 			c.x.ghostSet(st, h, "bank.bal", nb)
@@ -664,7 +666,7 @@ func (x *Exec) bankTransfer(c *CallCtx, from, to string, coins TV) []Outcome {
 		bal := x.bankBal(st, h)
 		if !single {
 			x.warn("bank transfer of a general coin list: balances havocked")
-			x.ghostSet(st, h, "bank.bal", x.enc.FreshConst("bank.bal@h", bankBalSort))
+			x.ghostSet(st, h, "bank.bal", x.freshGhost("bank.bal", "@h", bankBalSort))
 			return []Value{nilErr()}
 		}
 		d, a := x.coinDenom(coin), ite(nonEmpty, x.coinAmt(coin), "0")
@@ -701,7 +703,7 @@ func (x *Exec) bankMintBurn(c *CallCtx, mod string, coins TV, op string) []Outco
 		sup := x.bankSupply(st, h)
 		if !single {
 			x.warn("mint/burn of a general coin list: balances havocked")
-			x.ghostSet(st, h, "bank.bal", x.enc.FreshConst("bank.bal@h", bankBalSort))
+			x.ghostSet(st, h, "bank.bal", x.freshGhost("bank.bal", "@h", bankBalSort))
 			x.ghostSet(st, h, "bank.supply", x.enc.FreshConst("bank.supply@h", bankSupplySort))
 			return []Value{nilErr()}
 		}
